@@ -1,13 +1,27 @@
 /-
 C16 (iii) — applying a set of text edits (analysis.TextEdit: [start, stop) replaced by new).
 
-`applyOne` splices a single edit.  `applySeq` applies a list of edits one after the other
-in the given order, re-basing the edits still to be applied after each step (`shift`) —
-this is what any client does that applies edits sequentially.  `applySorted` is the usual
-one-pass splice over edits sorted by position (what the harness does).  Theorems.lean
-proves: for edits within bounds and pairwise non-overlapping the result of `applySeq` does
-not depend on the order, equals `applySorted` on the sorted list, and has the expected
-length.
+Three ways of applying a set of edits are modelled:
+
+* `applySorted` — the specification: one pass over the edits sorted by position, copying
+  the untouched text between them (`spliceFrom`).
+* `applyGo` — transliteration of the repository's own fix applier,
+  `analysis/lint/testutil.applyEdits` (the code the golden-file tests run): sort the edits
+  by (start, end), then patch a copy of the text in place while keeping a running
+  `offset` (an `int`, here `Int`) by which all later edits are displaced.
+  All five branches of the Go loop (pure deletion, pure insertion, exact replacement,
+  longer, shorter) compute `out[:start] ++ new ++ out[end:]` and `offset += len(new) -
+  (end-start)`; that common value is what `runGo` does.  (An edit without End is an
+  insertion; the harness hands it over with `stop = start`.)
+* `applySeq` — a client that applies the edits one after the other *in the order given*,
+  re-basing the edits still to be applied after each step (`shift`).
+
+Theorems.lean proves for edits within bounds and pairwise non-overlapping: the sorted
+order is unique (so neither the listing order nor the stability of the sort can matter),
+`applyGo` equals the specification, the length formula, and — for edit sets in which no
+pure insertion touches another edit — that `applySeq` gives the same result in every
+order (with a counterexample showing that this extra condition is needed for a re-basing
+client).
 -/
 namespace Verif.C16
 
@@ -15,7 +29,7 @@ structure Edit (α : Type) where
   start : Nat
   stop : Nat
   new : List α
-  deriving Repr
+  deriving Repr, DecidableEq
 
 variable {α : Type}
 
@@ -28,9 +42,16 @@ def Edit.before (a b : Edit α) : Prop := a.stop ≤ b.start ∧ a.start < b.sto
 
 instance (a b : Edit α) : Decidable (a.before b) := by unfold Edit.before; exact inferInstance
 
+/-- "do not overlap" -/
 def Edit.disjoint (a b : Edit α) : Prop := a.before b ∨ b.before a
 
 instance (a b : Edit α) : Decidable (a.disjoint b) := by unfold Edit.disjoint; exact inferInstance
+
+/-- The sort key of `testutil.applyEdits` (and of the harness): by start, then by end.
+`le a b` is "not (b sorts strictly before a)". -/
+def Edit.le (a b : Edit α) : Prop := a.start < b.start ∨ (a.start = b.start ∧ a.stop ≤ b.stop)
+
+instance (a b : Edit α) : Decidable (a.le b) := by unfold Edit.le; exact inferInstance
 
 /-- Re-base `x` after `a` has been applied: edits behind `a` move by the length change. -/
 def shift (a x : Edit α) : Edit α :=
@@ -58,9 +79,12 @@ def Edit.inBounds (n : Nat) (e : Edit α) : Prop := e.start ≤ e.stop ∧ e.sto
 
 instance (n : Nat) (e : Edit α) : Decidable (e.inBounds n) := by unfold Edit.inBounds; exact inferInstance
 
-/-- Well-formed edit set for a text of length `n`. -/
+/-- Well-formed edit set for a text of length `n`: the statement's "within one file's
+bounds and do not overlap". -/
 def WFEdits (n : Nat) (es : List (Edit α)) : Prop :=
   (∀ e ∈ es, e.inBounds n) ∧ es.Pairwise Edit.disjoint
+
+instance (n : Nat) (es : List (Edit α)) : Decidable (WFEdits n es) := by unfold WFEdits; exact inferInstance
 
 /-- Sorted chain: each edit lies before all later ones. -/
 def SortedEdits (es : List (Edit α)) : Prop := es.Pairwise Edit.before
@@ -68,11 +92,23 @@ def SortedEdits (es : List (Edit α)) : Prop := es.Pairwise Edit.before
 /-- insertion sort by (start, stop) -/
 def insertEdit (e : Edit α) : List (Edit α) → List (Edit α)
   | [] => [e]
-  | x :: xs => if e.start < x.start ∨ (e.start = x.start ∧ e.stop ≤ x.stop) then e :: x :: xs else x :: insertEdit e xs
+  | x :: xs => if e.le x then e :: x :: xs else x :: insertEdit e xs
 
 def sortEdits : List (Edit α) → List (Edit α)
   | [] => []
   | e :: es => insertEdit e (sortEdits es)
+
+/-- The loop of `testutil.applyEdits` over the sorted edits: `out` is the text patched so
+far, `off` the running displacement. -/
+def runGo : List α → Int → List (Edit α) → List α
+  | out, _, [] => out
+  | out, off, e :: rest =>
+    let s := ((e.start : Int) + off).toNat
+    let t := ((e.stop : Int) + off).toNat
+    runGo (out.take s ++ e.new ++ out.drop t) (off + (e.new.length : Int) - ((e.stop : Int) - (e.start : Int))) rest
+
+/-- `testutil.applyEdits`. -/
+def applyGo (src : List α) (es : List (Edit α)) : List α := runGo src 0 (sortEdits es)
 
 def inBoundsB (n : Nat) (es : List (Edit α)) : Bool := es.all fun e => e.start ≤ e.stop && e.stop ≤ n
 
@@ -91,5 +127,12 @@ def chainBefore : List (Edit α) → Bool
 
 def totalNew (es : List (Edit α)) : Nat := (es.map fun e => e.new.length).sum
 def totalOld (es : List (Edit α)) : Nat := (es.map fun e => e.stop - e.start).sum
+
+/-- A pure insertion (empty range) that touches another edit.  Only relevant for clients
+that apply edits one by one with re-basing (`applySeq`). -/
+def Edit.apart (a b : Edit α) : Prop :=
+  a.disjoint b ∧ (a.start = a.stop ∨ b.start = b.stop → a.stop < b.start ∨ b.stop < a.start)
+
+instance (a b : Edit α) : Decidable (a.apart b) := by unfold Edit.apart; exact inferInstance
 
 end Verif.C16
